@@ -875,7 +875,9 @@ def replay_case(case):
 
 def shrink(version, cmds, idx, sig, chunk_seed):
     """cheap: the failing command alone, else with the commands before it"""
-    for cand in ([cmds[idx]], cmds[max(0, idx - 3): idx + 1], cmds[: idx + 1]):
+    starts = [i for i in range(idx) if cmds[i]['line'] == 'group start']
+    block = [cmds[starts[-1]: idx + 1]] if starts else []
+    for cand in [[cmds[idx]]] + block + [cmds[max(0, idx - 3): idx + 1], cmds[: idx + 1]]:
         case = {'version': version, 'commands': cand, 'chunk_seed': chunk_seed}
         try:
             if any(s == sig for s, _ in replay_case(case)):
@@ -933,13 +935,16 @@ def check(tier, seed):
         'driven like one main-loop iteration per command)',
         'harness/c14.py: generators, the selector match set computed from the neighbor definitions, RIB snapshot '
         '(cached_routes + _new_nlri + _pending_withdraws + _refresh_routes + _watchdog), abstraction route -> (prefix key, med)',
-        'modelled, not verified: match_neighbor regular expression (hand model Model_Api.term_match, tied by the dispatcher peer-set comparison)',
+        'modelled, not verified: match_neighbor regular expression = Model_Api.re_search (substring search with both boundary tests), tied by '
+        'comparing limit.match_neighbor on random (description, peer name) pairs; abstract selectors Model_Api.term_match tied by the dispatcher peer sets',
     ]
     run.assumptions = [
         'the API process writes ASCII and no line longer than MAX_COMMAND_SIZE (C14_oversize_needs_hypothesis shows the hypothesis is needed)',
         'one os.read returns at most 16384 bytes of what was written, in order (POSIX pipe)',
         'the outcome class of a command (unknown / no matching peer / parse failure / accepted with these route changes) is an input of the '
         'execution model: route text parsing is C18',
+        'group model: a sub-command is its parse result (None = refused), the 100000-command / 100 MiB buffer limits are not modelled; '
+        'main-loop model: the ASYNC queue holds only API callbacks (coroutines), the listener generator is not modelled',
         'peers are not established (no sync-mode waiting, eor/route-refresh are refused); `system crash`, daemon reload/restart/shutdown, '
         'peer create/delete and `system api version` are not generated',
     ]
